@@ -13,13 +13,13 @@ theorem phaseT (r : Routine) (ps : PrefixSlices r) (s3 : State) (rk : List Nat) 
     (hrk : rk.length = 32) (hrkb : ∀ x ∈ rk, x < 2 ^ 32) (jb : List Nat) (hjb : jb.length = 16) (hjbb : ∀ x ∈ jb, x < 2 ^ 8)
     (v6 : vreg s3 6 = unlanes 8 jb) :
     ∃ s4, Reach r 823 s3 1353 s4 530 ∧ PCtx s4 ∧ FEnv s4 rk np tp ap nonce aad ∧ GhCtx h s4 ∧ greg s4 15 = 73014444032 ∧
-      vreg s4 15 = unlanes 8 (encB rk jb) ∧ vreg s4 14 = vreg s3 14 ∧ greg s4 6 = greg s3 6 ∧ s4.mem = s3.mem := by
+      vreg s4 15 = unlanes 8 (encB rk jb) ∧ vreg s4 14 = vreg s3 14 ∧ greg s4 6 = greg s3 6 ∧ (s4.mem = s3.mem ∧ s4.frame = s3.frame) := by
   obtain ⟨s4, hr, v15, g, kp⟩ := sm4One_spec 6 15 (Or.inr (Or.inl ⟨rfl, rfl⟩)) s3 pc.lenG pc.lenV pc.v10 pc.v11 pc.v12 jb hjb hjbb v6
     rk hrk hrkb 73014444032 g15 (by decide) e.rkR
   have rr : Reach r 823 s3 1353 s4 530 := by
     have := reach_seg ps.tEnc (one_nc 6 15) hr
     rw [len_one] at this; exact this
-  exact ⟨s4, rr, pc.of_keeps kp pRegs_one15, e.of_keeps kp, gc.of_keeps kp ghRegs_one15, g, v15, kp.v 14 (by decide), kp.g 6 (by decide), kp.mem⟩
+  exact ⟨s4, rr, pc.of_keeps kp pRegs_one15, e.of_keeps kp, gc.of_keeps kp ghRegs_one15, g, v15, kp.v 14 (by decide), kp.g 6 (by decide), ⟨kp.mem, kp.frame⟩⟩
 
 def sPreHeadCode : List DInstr :=
   [ins .VPXORD [R 21, R 21, R 21] 16, ins .MOVQ [G 7, G 12] 0, ins .MOVQ [G 7, G 11] 0, ins .ANDQ [.imm 15, G 11] 0,
